@@ -114,6 +114,22 @@ pub fn corpus(idx: usize, seed: u64, w: &mut dyn Write, thorough: bool) -> Optio
             g.step(&x("alice", natives(&[(77, USDC_DENOM)]), MMsg::FI { id: 3, seconds: 600 }));
             g.step(&x("alice", vec![], MMsg::FI { id: 3, seconds: 600 }));
             g.step(&x("bobby", natives(&[(10, JUNO_DENOM)]), MMsg::CB { id: 3 }));
+            // every non-deposit kind with one and with several denominations attached, in states where it would succeed
+            g.step(&x("carol", natives(&[(10, "uatom")]), MMsg::CL { id: 4, create: create(&[(10, JUNO_DENOM)]) }));
+            g.step(&x("carol", vec![], MMsg::FI { id: 4, seconds: 600 }));
+            g.step(&x("david", natives(&[(10, JUNO_DENOM)]), MMsg::CB { id: 4 }));
+            for f in [natives(&[(25, JUNO_DENOM)]), natives(&[(3, "uatom"), (4, JUNO_DENOM)])] {
+                g.step(&x("david", f.clone(), MMsg::BL { listing_id: 4, bucket_id: 4 }));
+                g.step(&x("david", f.clone(), MMsg::RB { id: 4 }));
+                g.step(&x("carol", f.clone(), MMsg::CA { id: 4, ask: ask_native(&[(1, JUNO_DENOM)]) }));
+            }
+            g.step(&x("david", vec![], MMsg::BL { listing_id: 4, bucket_id: 4 }));
+            for f in [natives(&[(25, JUNO_DENOM)]), natives(&[(3, "uatom"), (4, JUNO_DENOM)])] {
+                g.step(&x("david", f.clone(), MMsg::WP { id: 4 }));
+                g.step(&x("carol", f.clone(), MMsg::RB { id: 4 }));
+            }
+            g.step(&x("david", vec![], MMsg::WP { id: 4 }));
+            g.step(&x("carol", vec![], MMsg::RB { id: 4 }));
             // 0.1 s after expiry
             g.step(&Op::ADV { d_ns: 600_100_000_000, d_height: 100 });
             g.query(&Query::MK { page: 1 });
@@ -244,9 +260,46 @@ pub fn corpus(idx: usize, seed: u64, w: &mut dyn Write, thorough: bool) -> Optio
                         }
                     };
                     g.step(&op3);
+                    // listing ids and bucket ids are separate spaces: a listing may take the bucket's id and vice versa
+                    g.step(&x("david", natives(&[(5, "uosmo")]), MMsg::CL { id, create: create(&[(5, "uatom")]) }));
+                    g.step(&x("david", natives(&[(5, "uosmo")]), MMsg::CB { id: lid }));
+                    g.step(&x("david", vec![], MMsg::DL { id }));
+                    g.step(&x("david", vec![], MMsg::RB { id: lid }));
                     // alice cashes out what is hers
                     g.step(&x("alice", vec![], MMsg::RB { id }));
                     let _ = (pi, pj);
+                }
+            }
+            g.battery_drain();
+            // goods of every kind in ONE record (NFT + CW20 + two native denominations): purchased and withdrawn,
+            // deleted while preparing, deleted after expiry; every message of those payouts faulted in turn
+            for (k, fate) in ["buy", "delete-preparing", "delete-expired"].iter().enumerate() {
+                let lid = 3000 + k as u64;
+                let e_nft = g.h.sim.nft_owners(&colls[0]).into_iter().filter(|(_, o)| o == "erinn").map(|(t, _)| t).next();
+                g.step(&x("erinn", natives(&[(30, "uatom"), (40, "uosmo")]), MMsg::CL { id: lid, create: create(&[(60, "uatom")]) }));
+                g.step(&Op::T20 { token: t.clone(), sender: "erinn".into(), amount: 45, inner: Inner::AL { id: lid } });
+                if let Some(tid) = e_nft {
+                    g.step(&Op::T721 { coll: colls[0].clone(), sender: "erinn".into(), token_id: tid, inner: Inner::AL { id: lid } });
+                }
+                match *fate {
+                    "buy" => {
+                        g.step(&x("erinn", vec![], MMsg::FI { id: lid, seconds: 600 }));
+                        g.step(&x("frank", natives(&[(60, "uatom")]), MMsg::CB { id: lid }));
+                        g.step(&x("frank", vec![], MMsg::BL { listing_id: lid, bucket_id: lid }));
+                        g.battery_faults();
+                        g.step(&x("frank", vec![], MMsg::WP { id: lid }));
+                        g.step(&x("erinn", vec![], MMsg::RB { id: lid }));
+                    }
+                    "delete-preparing" => {
+                        g.battery_faults();
+                        g.step(&x("erinn", vec![], MMsg::DL { id: lid }));
+                    }
+                    _ => {
+                        g.step(&x("erinn", vec![], MMsg::FI { id: lid, seconds: 600 }));
+                        g.step(&Op::ADV { d_ns: 600_000_000_000, d_height: 10 });
+                        g.battery_faults();
+                        g.step(&x("erinn", vec![], MMsg::DL { id: lid }));
+                    }
                 }
             }
             g.battery_drain();
@@ -790,6 +843,65 @@ pub fn boundary(idx: usize, seed: u64, w: &mut dyn Write, thorough: bool) -> Opt
                     g.step(&Op::ADV { d_ns: 604_802_000_000_000, d_height: 100_000 });
                     g.step(&x("erinn", vec![], MMsg::FC));
                 }
+            }
+            g.battery_drain();
+            Some(g.stats)
+        }
+        19 | 20 => {
+            // 17 NFTs alternating between two collections registered at 300 bps each: the royalties due are
+            // 6 % (each collection counts once per side), far below the 50 % gate - the purchase must go through
+            let buyer_side = idx == 20;
+            let sim = Sim::new(Config { n_users: 3, n_cw20: 1, n_cw721: 2, nfts_per_user_per_collection: 9, n_hostile: 0, ..Config::default() });
+            let mut g = Gen::start(sim, &format!("boundary:{} alternating-collections side={}", idx, if buyer_side { "buyer" } else { "seller" }), seed, w, thorough);
+            let colls = g.h.sim.cw721_addrs().to_vec();
+            g.step(&Op::R { sender: DEPLOYER.into(), msg: RMsg::Reg { nft: va(&colls[0]), payout: va(PAYOUTS[0]), bps: 300 } });
+            g.step(&Op::R { sender: DEPLOYER.into(), msg: RMsg::Reg { nft: va(&colls[1]), payout: va(PAYOUTS[1]), bps: 300 } });
+            let mine = |g: &Gen, c: &String| -> Vec<String> { g.h.sim.nft_owners(c).into_iter().filter(|(_, o)| o == "alice").map(|(t, _)| t).collect() };
+            let (a, b) = (mine(&g, &colls[0]), mine(&g, &colls[1]));
+            let mut seq: Vec<(String, String)> = vec![];
+            for i in 0..17 {
+                let (c, ts) = if i % 2 == 0 { (&colls[0], &a) } else { (&colls[1], &b) };
+                seq.push((c.clone(), ts[i / 2].clone()));
+            }
+            let nfts_g = GenericBalance { native: vec![], cw20: vec![], nfts: seq.iter().map(|(c, t)| Nft { contract_address: Addr::unchecked(c.as_str()), token_id: t.clone() }).collect() };
+            let t = g.h.sim.cw20_addrs()[0].clone();
+            let fung = GenericBalance {
+                native: natives(&[(10_000, JUNO_DENOM), (33_333, USDC_DENOM)]),
+                cw20: vec![Cw20CoinVerified { address: Addr::unchecked(t.as_str()), amount: Uint128::new(20_001) }],
+                nfts: vec![],
+            };
+            // deposits in exactly this order
+            let nft_deposits = |g: &mut Gen, who: &str, create: Option<Create>, bucket: bool| {
+                let mut first = true;
+                for (c, tid) in &seq {
+                    let inner = match (bucket, first) {
+                        (false, true) => Inner::CL { id: 1, create: create.clone().unwrap() },
+                        (false, false) => Inner::AL { id: 1 },
+                        (true, true) => Inner::CB { id: 1 },
+                        (true, false) => Inner::AB { id: 1 },
+                    };
+                    g.step(&Op::T721 { coll: c.clone(), sender: who.into(), token_id: tid.clone(), inner });
+                    first = false;
+                }
+            };
+            if !buyer_side {
+                nft_deposits(&mut g, "alice", Some(Create { ask: gbal_to_raw(&fung), whitelist: None }), false);
+                g.step(&x("alice", vec![], MMsg::FI { id: 1, seconds: 600 }));
+                for op in g.deposit_ops("bobby", &fung, 1, None) {
+                    g.step(&op);
+                }
+                g.step(&x("bobby", vec![], MMsg::BL { listing_id: 1, bucket_id: 1 }));
+                g.step(&x("bobby", vec![], MMsg::WP { id: 1 }));
+                g.step(&x("alice", vec![], MMsg::RB { id: 1 }));
+            } else {
+                for op in g.deposit_ops("bobby", &fung, 1, Some(Create { ask: gbal_to_raw(&nfts_g), whitelist: None })) {
+                    g.step(&op);
+                }
+                g.step(&x("bobby", vec![], MMsg::FI { id: 1, seconds: 600 }));
+                nft_deposits(&mut g, "alice", None, true);
+                g.step(&x("alice", vec![], MMsg::BL { listing_id: 1, bucket_id: 1 }));
+                g.step(&x("alice", vec![], MMsg::WP { id: 1 }));
+                g.step(&x("bobby", vec![], MMsg::RB { id: 1 }));
             }
             g.battery_drain();
             Some(g.stats)
